@@ -4,7 +4,7 @@ from vlib.framework import BaseCheck, CaseResult
 
 class C18(BaseCheck):
   ID = 'C18'
-  RULE = ('case = random sequence (20-400 ops) of counter/rate/aggregate-timer increments, gauge sets '
+  RULE = ('case = random sequence (20-400 ops) of counter/rate/aggregate-timer increments (incl. zero, negative and fractional amounts), gauge sets '
           'and percentile samples issued through freshly constructed Sources drawn from a small pool '
           'of field tuples (so equal-but-distinct Source objects abound), checked against a dict keyed '
           'by the field tuple: per-service aggregates == sums, gauge == last value per tuple, number of '
@@ -19,7 +19,7 @@ class C18(BaseCheck):
              'scales.varz:VarzAggregator.CalculatePercentile')
   REQUIRED_ANCHORS = ANCHORS
   REQUIRED_CLASSES = ('counter', 'gauge', 'percentile:below-reservoir', 'percentile:above-reservoir',
-                      'full-stack', 'percentile:busy-after-full', 'zero-increment')
+                      'full-stack', 'percentile:busy-after-full', 'zero-increment', 'fractional-increment')
   ASSUMPTIONS = ('percentile bounds allow 1e-9 relative slack for the linear interpolation',)
   QUICK_CASES = 720
   THOROUGH_CASES = 40000
@@ -64,9 +64,11 @@ class C18(BaseCheck):
       fresh_uses[t] = fresh_uses.get(t, 0) + 1
       k = rng.choice(['cnt', 'rate', 'agg', 'g', 'cnt-class', 'g'])
       if k == 'cnt':
-        amt = rng.choice([1, 1, 2, 5, 0, -1])
+        amt = rng.choice([1, 1, 2, 5, 0, -1, 0.25, 2.5])     # fractions exactly representable: sums are exact
         if amt == 0:
           classes.add('zero-increment')
+        if amt != int(amt):
+          classes.add('fractional-increment')
         V(src).cnt(amt) if amt != 1 else V(src).cnt()
         model_sum[('cnt', t)] = model_sum.get(('cnt', t), 0) + amt
         used.setdefault('cnt', set()).add(t)
@@ -78,8 +80,11 @@ class C18(BaseCheck):
         used.setdefault('cnt', set()).add(t)
         kinds_used.add('counter')
       elif k == 'rate':
-        V(src).rate()
-        model_sum[('rate', t)] = model_sum.get(('rate', t), 0) + 1
+        amt = rng.choice([1, 1, 1, 3, 0.5, 1.25])
+        if amt != int(amt):
+          classes.add('fractional-increment')
+        V(src).rate(amt) if amt != 1 else V(src).rate()
+        model_sum[('rate', t)] = model_sum.get(('rate', t), 0) + amt
         used.setdefault('rate', set()).add(t)
         kinds_used.add('rate')
       elif k == 'agg':
